@@ -19,7 +19,7 @@ REPLAYS = os.path.join(VERIF, 'replays')
 EVIDENCE = os.path.join(VERIF, 'evidence')
 
 RUN_WALL = 30           # seconds per run (alarm inside the worker)
-CHUNK = 25
+CHUNK = int(os.environ.get('VERIF_CHUNK') or 25)     # runs per forked child; VERIF_CHUNK=1 isolates every run
 
 
 def verif_seed():
@@ -57,9 +57,19 @@ _ENGINE = None
 
 
 def _work(task):
+    """One chunk of runs, executed in a fresh fork of this (never-run) worker: a run can only see state left
+    by the earlier runs of its own chunk, and the replay file records those as its prelude."""
+    try:
+        return kernel.in_fork(lambda: _work_chunk(task), timeout=RUN_WALL * CHUNK + 30)
+    except kernel.HarnessError as e:
+        prop, vseed, indices, nsample = task
+        return [{'index': i, 'run_seed': kernel.derive_seed(prop, vseed, i), 'harness_error': str(e)} for i in indices]
+
+
+def _work_chunk(task):
     prop, vseed, indices, nsample = task
     out = []
-    for i in indices:
+    for k, i in enumerate(indices):
         rs = kernel.derive_seed(prop, vseed, i)
         try:
             r = kernel.execute(_ENGINE, rs, wall=RUN_WALL)
@@ -68,6 +78,7 @@ def _work(task):
                         ''.join(traceback.format_exception(type(e), e, e.__traceback__))[-3000:]})
             continue
         r['index'] = i
+        r['prelude'] = list(indices[:k])
         r['sigs'] = sorted(r['sigs'])
         if r['violation'] is None and i >= nsample:
             r['ops'] = None
@@ -250,9 +261,47 @@ def write_replay(engine, r, vseed, minimise=True):
     v = r['violation']
     sig = (v['clause'], v['site'], v['klass'])
     ops, best, used = r['ops'], r, 0
+    # does the violation need state left behind by earlier runs of its chunk?
+    prelude_idx = []
+    history_dependent = False
+    try:
+        alone = kernel.execute_isolated(engine, r['run_seed'], r['cfg'], r['ops'], wall=RUN_WALL)
+        va = alone['violation']
+        if not (va and (va['clause'], va['site'], va['klass']) == sig):
+            history_dependent = True
+            full = list(r.get('prelude') or [])
+            seeds = lambda idx: [kernel.derive_seed(engine.prop, vseed, i) for i in idx]      # noqa: E731
+
+            def reproduces(idx):
+                try:
+                    q = kernel.execute_isolated(engine, r['run_seed'], r['cfg'], r['ops'], prelude_seeds=seeds(idx), wall=RUN_WALL)
+                except kernel.HarnessError:
+                    return False
+                v2 = q['violation']
+                return bool(v2 and (v2['clause'], v2['site'], v2['klass']) == sig)
+            if full and reproduces(full):
+                # shortest suffix first, then drop single runs
+                prelude_idx = full
+                for n in range(1, len(full)):
+                    if reproduces(full[-n:]):
+                        prelude_idx = full[-n:]
+                        break
+                k = 0
+                while k < len(prelude_idx) and len(prelude_idx) > 1:
+                    cand = prelude_idx[:k] + prelude_idx[k + 1:]
+                    if reproduces(cand):
+                        prelude_idx = cand
+                    else:
+                        k += 1
+            else:
+                prelude_idx = full          # could not be reproduced in isolation: recorded as found
+    except kernel.HarnessError:
+        traceback.print_exc()
+    prelude_seeds = [kernel.derive_seed(engine.prop, vseed, i) for i in prelude_idx]
     if minimise:
         try:
-            mops, mbest, used = kernel.minimise(engine, r['run_seed'], r['cfg'], r['ops'], sig)
+            mops, mbest, used = kernel.minimise(engine, r['run_seed'], r['cfg'], r['ops'], sig, prelude_seeds=prelude_seeds,
+                                                budget=300 if not prelude_seeds else 80)
             if mbest is not None:
                 ops, best = mops, mbest
         except Exception:       # noqa: BLE001
@@ -264,6 +313,10 @@ def write_replay(engine, r, vseed, minimise=True):
         'config': r['cfg'], 'ops': ops, 'ops_original': r['ops'],
         'violation': best['violation'], 'digest': best['digest'],
         'minimiser_executions': used,
+        'history_dependent': history_dependent,
+        'prelude_run_indices': prelude_idx, 'prelude_run_seeds': prelude_seeds,
+        'prelude_note': ('the violation needs state that earlier runs of the same chunk left in the process (module-level state in '
+                         'the library); replay executes these runs first, generated from their seeds') if prelude_idx else None,
     }
     path = os.path.join(REPLAYS, '%s-%d.json' % (engine.prop, r['run_seed']))
     with open(path, 'w') as f:
@@ -279,6 +332,9 @@ def replay(engine, args):
         return 2
     if doc.get('tree_sha') and doc['tree_sha'] != os.environ.get('VERIF_TREE_SHA'):
         print('note: tree has changed since this replay file was written')
+    if doc.get('prelude_run_seeds'):
+        print('prelude: %d earlier run(s) executed first for the process state they leave behind' % len(doc['prelude_run_seeds']))
+        kernel.run_prelude(engine, doc['prelude_run_seeds'], wall=120)
     r = kernel.execute(engine, doc['run_seed'], doc['config'], doc['ops'], keep_events=args.events, wall=120)
     if args.events:
         for e in r['events']:
